@@ -576,3 +576,122 @@ pub fn close_with_deadline(
         }
     })
 }
+
+// ---------------------------------------------------------------------------
+// TLS (C18): self-signed certificate, accept-anything client, sync client I/O
+// ---------------------------------------------------------------------------
+
+#[derive(Debug)]
+struct NoVerify;
+
+impl rustls::client::danger::ServerCertVerifier for NoVerify {
+    fn verify_server_cert(
+        &self,
+        _end_entity: &rustls::pki_types::CertificateDer<'_>,
+        _intermediates: &[rustls::pki_types::CertificateDer<'_>],
+        _server_name: &rustls::pki_types::ServerName<'_>,
+        _ocsp_response: &[u8],
+        _now: rustls::pki_types::UnixTime,
+    ) -> Result<rustls::client::danger::ServerCertVerified, rustls::Error> {
+        Ok(rustls::client::danger::ServerCertVerified::assertion())
+    }
+    fn verify_tls12_signature(
+        &self,
+        _message: &[u8],
+        _cert: &rustls::pki_types::CertificateDer<'_>,
+        _dss: &rustls::DigitallySignedStruct,
+    ) -> Result<rustls::client::danger::HandshakeSignatureValid, rustls::Error> {
+        Ok(rustls::client::danger::HandshakeSignatureValid::assertion())
+    }
+    fn verify_tls13_signature(
+        &self,
+        _message: &[u8],
+        _cert: &rustls::pki_types::CertificateDer<'_>,
+        _dss: &rustls::DigitallySignedStruct,
+    ) -> Result<rustls::client::danger::HandshakeSignatureValid, rustls::Error> {
+        Ok(rustls::client::danger::HandshakeSignatureValid::assertion())
+    }
+    fn supported_verify_schemes(&self) -> Vec<rustls::SignatureScheme> {
+        use rustls::SignatureScheme::*;
+        vec![
+            ECDSA_NISTP256_SHA256,
+            ECDSA_NISTP384_SHA384,
+            ED25519,
+            RSA_PSS_SHA256,
+            RSA_PSS_SHA384,
+            RSA_PSS_SHA512,
+            RSA_PKCS1_SHA256,
+            RSA_PKCS1_SHA384,
+            RSA_PKCS1_SHA512,
+        ]
+    }
+}
+
+pub struct TlsKit {
+    pub server: ConfigTls,
+    pub client: Arc<rustls::ClientConfig>,
+    /// the TLS record(s) a real client sends first (ClientHello)
+    pub hello: Vec<u8>,
+}
+
+pub fn tls_kit() -> TlsKit {
+    let ck = rcgen::generate_simple_self_signed(vec!["localhost".to_string()]).expect("self-signed certificate");
+    let server = ConfigTls::AsBytes { certs: ck.cert.pem().into_bytes(), key: ck.key_pair.serialize_pem().into_bytes() };
+    let client = Arc::new(
+        rustls::ClientConfig::builder()
+            .dangerous()
+            .with_custom_certificate_verifier(Arc::new(NoVerify))
+            .with_no_client_auth(),
+    );
+    let mut conn = rustls::ClientConnection::new(client.clone(), tls_name()).expect("client connection");
+    let mut hello = Vec::new();
+    while conn.wants_write() {
+        conn.write_tls(&mut hello).expect("client hello");
+    }
+    TlsKit { server, client, hello }
+}
+
+fn tls_name() -> rustls::pki_types::ServerName<'static> {
+    rustls::pki_types::ServerName::try_from("localhost").unwrap()
+}
+
+pub type TlsStream = rustls::StreamOwned<rustls::ClientConnection, TcpStream>;
+
+/// TCP connect + complete TLS handshake (new session, nothing pooled).
+pub fn tls_connect(addr: SocketAddr, kit: &TlsKit) -> Option<TlsStream> {
+    let mut tcp = open(addr)?;
+    let mut conn = rustls::ClientConnection::new(kit.client.clone(), tls_name()).ok()?;
+    while conn.is_handshaking() {
+        if conn.complete_io(&mut tcp).is_err() {
+            return None;
+        }
+    }
+    Some(rustls::StreamOwned::new(conn, tcp))
+}
+
+/// Read decrypted bytes until the peer closes (close_notify, FIN or reset) or a timeout.
+pub fn tls_read_to_end(s: &mut TlsStream) -> Vec<u8> {
+    use std::io::Read;
+    let mut recv = Vec::new();
+    let mut buf = [0u8; 16384];
+    loop {
+        match s.read(&mut buf) {
+            Ok(0) => break,
+            Ok(n) => recv.extend_from_slice(&buf[..n]),
+            Err(e) if e.kind() == std::io::ErrorKind::Interrupted => continue,
+            Err(_) => break,
+        }
+    }
+    recv
+}
+
+/// Health request over TLS on a FRESH connection (new TCP connection, new handshake).
+pub fn tls_health(addr: SocketAddr, kit: &TlsKit) -> bool {
+    let Some(mut s) = tls_connect(addr, kit) else { return false };
+    if s.write_all(b"GET /health HTTP/1.1\r\nhost: localhost\r\nconnection: close\r\n\r\n").is_err() {
+        return false;
+    }
+    let _ = s.flush();
+    let recv = tls_read_to_end(&mut s);
+    recv.starts_with(b"HTTP/1.1 200 ") && recv.ends_with(b"healthy")
+}
